@@ -28,8 +28,9 @@ KINDS = {
     'br/': dict(name='br', sc=True),
     'div': dict(name='div'),
     'div.k': dict(name='div', cls=['k']),
+    'div[a=b]': dict(name='div', attrs=[('a', 'b')]),
 }
-SMALL = ['x', '.c', 'x#i.c[a=b d]', 'x{l1\nl2}', 'br/']
+SMALL = ['x', '.c', 'x#i.c[a=b d]', 'x{l1\nl2}', 'br/', 'div[a=b]']
 SYNTAXES = ['haml', 'pug', 'slim']
 INDENTS = ['\t', '  ', '    ']
 BOUNDS = {
